@@ -108,7 +108,7 @@ CHECKS = {
         engine="TaskLife",
         technique="TLA+ specs TaskLife (runner, child process, two pumps and a cancel request as separately scheduled steps; WellFormed, Ends) and Capture (capture_stream transcribed as a fold over OS reads, bytes as positions; Faithful for every chunking) model-checked with TLC; every Capture case replayed on the real bash tool with a writer producing exactly those reads; recorded task streams plus on-disk measurements validated by TLC (TaskLifeTrace)",
         text="TLC proves WellFormed (opens with the spawn frame, running at most once, exactly one terminal frame and nothing after it, cancel request before the cancelled status, consecutive ranges covering the stored output, stored = prefix up to the cap) and termination for every interleaving of process writes, pump reads, cancel and exit, and Faithful (preview and artifact are prefixes, artifact exists exactly when needed) for every chunking x preview limit x cap; every (limit, cap, chunking) case is run on the real bash tool in three unit sizes with ASCII / multi-byte / binary payloads and the preview, the artifact bytes, its sha256 name and artifact_fetch pages are compared byte for byte; real tasks over payload class x cap x preview limit x exit code, read-size boundaries, both streams at volume, invalid requests, cancel while queued / at once / mid-output / twice / after exit and a late writer are run through the router and TLC validates each stream with the stored bytes, the terminal summary, the snapshot and /output pages.",
-        note="PTY tasks not exercised; OS chunking is steered by 30 ms gaps (the oracle does not depend on it); one recorded finding (binary output cannot be paged losslessly).",
+        note="PTY tasks not exercised; OS chunking is steered by 30 ms gaps (the oracle does not depend on it); one recorded finding (binary output cannot be paged losslessly). Also: 16 / 200 random tasks per run (write sizes around the character widths and the 4 / 8 KiB read sizes, random caps, limits, exit codes and cancel moments); one capped foreground case repeated 9 600 / 28 800 times on all cores: the artifact must hold the referenced bytes the moment tool_ended arrives (missing flush, fixed in 6f13b00).",
         ref="4 C17"),
     "C18": dict(
         engine="Authority",
